@@ -8,3 +8,4 @@ import MiniconfVerif.Props.C15
 #print axioms MiniconfVerif.C15.json_notations_agree
 #print axioms MiniconfVerif.C15.json_no_panic
 #print axioms MiniconfVerif.C15.json_fused_terminates
+#print axioms MiniconfVerif.C15.source_iterators_are_model
